@@ -106,7 +106,7 @@ def model_constants(progs, writers, nb, npolls, with_reaper=True, max_sleeps=2, 
                 names.add(q)
             if k == "write":
                 cnt[p] = cnt.get(p, 0) + 1
-            seq.append(dict(k=k, p=p, q=q))
+            seq.append(dict(k=k, p=p, q=q, s=0))
         P[w] = seq
         full[w] = cnt
     for n in list(names):
@@ -120,10 +120,12 @@ def model_constants(progs, writers, nb, npolls, with_reaper=True, max_sleeps=2, 
         FullOf=tlc.Raw("(" + " @@ ".join('"%s" :> [n \\in mc_Names |-> %s]' % (
             w, " ".join("IF n = \"%s\" THEN %d ELSE" % (n, c) for n, c in sorted(full[w].items())) + " 0") for w in sorted(P)) + ")"),
         NB=nb, Names=names, Counted=counted, NPolls=npolls, MaxSleeps=max_sleeps, WithReaper=with_reaper,
-        MaxCrashes=max_crashes, Record=record)
+        MaxCrashes=max_crashes, Record=record,
+        Pre=tlc.Raw('[n \\in mc_Names |-> "absent"]'), SowFiles=tlc.Raw("{}"), DataFiles=tlc.Raw("{}"), WithRecovery=False)
     # Names must be defined before FullOf in the generated module: dict order is preserved
     ordered = {}
-    for k in ("Names", "Writers", "Prog", "BatchOf", "FullOf", "NB", "Counted", "NPolls", "MaxSleeps", "WithReaper", "MaxCrashes", "Record"):
+    for k in ("Names", "Writers", "Prog", "BatchOf", "FullOf", "NB", "Counted", "NPolls", "MaxSleeps", "WithReaper", "MaxCrashes", "Record",
+              "Pre", "SowFiles", "DataFiles", "WithRecovery"):
         ordered[k] = consts[k]
     return ordered
 
